@@ -1,5 +1,6 @@
 """Statements and expressions."""
 import ast
+import os
 import z3
 
 from . import sorts as so
@@ -458,6 +459,11 @@ class Interp(Engine):
                 seq = so.dict_order(m)
                 self.assume_dict_order(seq, m)
                 return seq, (arg.split(",")[0].strip("( ") if arg else None)
+            if kind in self.reg.shapes and not self.spec_mode:
+                c = self.reg.shape_method(kind, "__iter__")
+                if c is not None:
+                    # an abstract iterable: its __iter__ contract returns the (finite) sequence of elements as a list
+                    return self.iter_seq(self.apply_contract(c, it, [], {}, node, mname="__iter__"), node)
         self.unsupported(node, "iteration over %r" % (it,))
 
     def assume_set_order(self, seq, m):
@@ -467,6 +473,16 @@ class Interp(Engine):
         self.assume(z3.ForAll([i], z3.Implies(z3.And(0 <= i, i < n), m[seq[i]])))
         self.assume(z3.ForAll([i, j], z3.Implies(z3.And(0 <= i, i < j, j < n), seq[i] != seq[j])))
         self.assume(z3.ForAll([x], z3.Implies(m[x], z3.Contains(seq, z3.Unit(x)))))
+        # a set display {e1, .., ek}: every listed element has a position (ground facts: no instantiation needed)
+        elems, t = [], z3.simplify(m)
+        while z3.is_app(t) and t.decl().kind() == z3.Z3_OP_STORE and z3.is_true(t.arg(2)):
+            elems.append(t.arg(1))
+            t = t.arg(0)
+        if elems and z3.is_app(t) and t.decl().kind() == z3.Z3_OP_CONST_ARRAY and z3.is_false(t.arg(0)):
+            self.assume(n <= len(elems))
+            for e in elems:
+                pos = so.fresh("pos", so.I)
+                self.assume(z3.And(0 <= pos, pos < n, seq[pos] == e))
 
     def assume_dict_order(self, seq, m):
         i, j = z3.Ints("oi oj")
@@ -780,11 +796,14 @@ class Interp(Engine):
 
     def ev_Set(self, node):
         m = so.EMPTY_SET
-        for e in node.elts:
-            m = z3.Store(m, self.to_term(self.ev(e), node), True)
+        items = [self.ev(e) for e in node.elts]
+        for x in items:
+            m = z3.Store(m, self.to_term(x, node), True)
+        tags = {x.ty for x in items if isinstance(x, SV)}
+        et = tags.pop() if len(tags) == 1 and all(isinstance(x, SV) for x in items) and None not in tags else None
         if self.spec_mode:
-            return PSet(m)
-        return self.new_set(m)
+            return PSet(m, et)
+        return self.new_set(m, "set[%s]" % et if et else "set")
 
     def ev_Dict(self, node):
         if self.spec_mode and node.keys and all(isinstance(k, ast.Constant) for k in node.keys):
@@ -1285,13 +1304,37 @@ class Interp(Engine):
         self.push_bind(g.target, elem_at(j), node)
         saved = self.spec_mode
         self.spec_mode += 1      # element expression must be pure
+        npc, heap0 = len(self.st.pc), dict(self.st.heap)
         try:
             body = self.to_term(self.ev(node.elt), node)
         finally:
             self.spec_mode = saved
             self.pop_bind()
+        changed = [k for k in set(self.st.heap) | set(heap0) if self.st.heap.get(k) is not heap0.get(k)]
+        if any(k != "$alloc" for k in changed):
+            self.unsupported(node, "comprehension element with side effects on %s" % sorted(changed))
+        if changed or any(_mentions(a, j) for a in self.st.pc[npc:]):
+            # a call with a fresh result inside the element expression: its facts hold for ONE (free) index only, so they must not
+            # be quantified over.  Sound over-approximation: a sequence of the right length with unconstrained elements (the
+            # facts already on the path constrain only symbols that are not used again).
+            self.assume(z3.Length(out) == n)
+            if changed:
+                a2 = so.fresh("alloc", so.I)
+                self.assume(a2 >= self.comp("$alloc"))
+                self.st.heap["$alloc"] = a2
+            if kind == "list" and not self.spec_mode:
+                return self.new_list(out)
+            if kind == "set":
+                self.unsupported(node, "set comprehension")
+            return PSeq(out)
         self.assume(z3.Length(out) == n)
         self.assume(z3.ForAll([j], z3.Implies(z3.And(0 <= j, j < n), out[j] == body), patterns=[out[j]]))
+        if not isinstance(it, RangeV) and not isinstance(seq, ZipV) and MAP_THEORY:
+            # the same definition through the sequence theory's map (nth/length of a map unfold without quantifier instantiation)
+            x = z3.Const("cx!map", Val)      # one bound name everywhere: equal definitions are the same term
+            body_x = z3.substitute(body, (seq[j], x))
+            if not _mentions(body_x, j):
+                self.assume(out == z3.SeqMap(z3.Lambda([x], body_x), seq))
         if kind == "list" and not self.spec_mode:
             return self.new_list(out)
         if kind == "set":
@@ -1389,6 +1432,26 @@ class Interp(Engine):
 
 
 # ---------------------------------------------------------------------- helpers
+MAP_THEORY = os.environ.get("VERIF_NO_SEQMAP") is None
+
+
+def _mentions(term, var):
+    seen = set()
+    todo = [term]
+    while todo:
+        t = todo.pop()
+        if t.get_id() in seen:
+            continue
+        seen.add(t.get_id())
+        if t.eq(var):
+            return True
+        if z3.is_quantifier(t):
+            todo.append(t.body())
+        else:
+            todo.extend(t.children())
+    return False
+
+
 SPEC_BUILTINS = {
     "old", "implies", "iff", "hist", "snoc", "call", "ghist", "forall", "exists", "fresh_since", "typeof_is",
     "seq", "concat", "setof", "mapof", "HIST", "G", "LIST", "ALLOC", "isnone", "is_ref", "kw", "kwget", "elems",
